@@ -356,7 +356,7 @@ class BodyPartReader:
                 method from Content-Encoding header. If it missed
                 data remains untouched
         """
-        if self._at_eof:
+        if self._at_eof and not self._read_partial:
             return b""
         data = self._read_partial
         self._read_partial = bytearray()
@@ -373,10 +373,17 @@ class BodyPartReader:
         # https://github.com/python/mypy/issues/17537
         if decode:  # type: ignore[unreachable]
             decoded_data = bytearray()
-            async for d in self.decode_iter(data):
-                decoded_data.extend(d)
-                if 0 < self._client_max_size < len(decoded_data):
-                    raise self._max_size_error_cls(self._client_max_size)
+            try:
+                async for d in self.decode_iter(data):
+                    decoded_data.extend(d)
+                    if 0 < self._client_max_size < len(decoded_data):
+                        raise self._max_size_error_cls(self._client_max_size)
+            except BaseException:
+                # The part has left the stream: keep it, the next read()
+                # decodes it again from the start.
+                self._read_partial = data
+                self._decompressor = None
+                raise
             return decoded_data
         return data
 
